@@ -136,12 +136,12 @@ def parse_rt(line):
 
 def run(ctx, widen=False):
     rng = ctx.rng
-    ndoc = ctx.scale(700, 6000) * (2 if widen else 1)
+    ndoc = ctx.scale(3000, 20000) * (2 if widen else 1)
     docs = []
     for i in range(ndoc):
         d = docgen.gen_doc(rng, rng.randrange(0, 5), rng.randrange(1, 7), object_tails=(i % 10 == 9))
         docs.append((d, i % 10 != 9))
-    for i in range(ctx.scale(120, 800)):
+    for i in range(ctx.scale(400, 2000)):
         docs.append((chain(rng, rng.randrange(6, 15)), True))
     ctx.count("documents", len(docs))
 
@@ -175,7 +175,7 @@ def run(ctx, widen=False):
         for cfg in cfgs(rng, 1):
             wcases.append("writer.tape\t%s\t%s\t%s" % (cfg, hexs(x), tape)); meta.append((d, rtable, x, tape, cfg))
     # exotic configurations: model/implementation comparison only
-    for (d, rtable, x, tape) in work[:ctx.scale(150, 1500)]:
+    for (d, rtable, x, tape) in work[:ctx.scale(600, 4000)]:
         cfg = "%d,%d,r" % (rng.choice([32, 9, 46, 0, 255, 10]), rng.choice([0, 1, 15, 16, 17, 31, 100, 255]))
         wcases.append("writer.tape\t%s\t%s\t%s" % (cfg, hexs(x), tape)); meta.append((d, None, x, tape, cfg))
     nt = lambda c, i: i.startswith("ok ") and (" A:" in c or " O:" in c or " OP:" in c)
@@ -189,7 +189,7 @@ def run(ctx, widen=False):
             _fail(ctx, "write-tape-err", "write_tape on a parsed tape: %s" % o[:60], [c], [o], "ok")
         elif o.split(" ")[2] != "0.1":
             _fail(ctx, "write-tape-state-param-value" if has_param_value(meta[k][0]) else "write-tape-state", "after write_tape of a complete document depth()/expecting_key() are %s, not 0/true" % o.split(" ")[2], [c], [o], "0.1")
-    dcases = wcases[:ctx.scale(400, 3000)]
+    dcases = wcases[:ctx.scale(1500, 8000)]
     dcases = ["\t".join([p if j != 1 else p[:-1] + "d" for j, p in enumerate(c.split("\t"))]) for c in dcases]
     ctx.correspond("write_tape_debug", dcases, nontrivial=nt, profile="debug")
 
